@@ -213,6 +213,18 @@ func (c *Ctx) tonProofLayout() {
 						}
 					}
 				}
+				// append(body, mac(body)...) with the MAC computed by an unexported helper over the same 16 bytes
+				if bi, ok := x.Call.Value.(*ssa.Builtin); ok && bi.Name() == "append" && len(x.Call.Args) == 2 {
+					if body, ok := macBody(x.Call.Args[1], 0); ok {
+						isMade := func(v ssa.Value) bool {
+							al, ok := bufferOf(v).(*ssa.Alloc)
+							return ok && al.Comment == "makeslice"
+						}
+						if isMade(body) && isMade(x.Call.Args[0]) && bufferOf(body) == bufferOf(x.Call.Args[0]) {
+							okMac = true
+						}
+					}
+				}
 			}
 		})
 		c.check(okRand && okLen && okOut && okMac, R, "GeneratePayload = hex(nonce8 | expiry8 | mac[:16])", f.Pos(), "make 16; rand [:8]; Sum appended to the 16 bytes; hex of [:32]", fmt.Sprintf("GeneratePayload layout changed (16-byte body %v, random nonce [:8] %v, MAC appended to the body %v, output [:32] %v)", okLen, okRand, okMac, okOut))
@@ -234,6 +246,12 @@ func (c *Ctx) tonProofLayout() {
 						c2 := callOf(v)
 						return c2 != nil && c2.Call.IsInvoke() && c2.Call.Method.Name() == "Sum"
 					}, false)
+					// the MAC taken through an unexported helper: what it is computed over is the helper's argument
+					if body, ok := macBody(cl.Call.Args[1], 0); ok && callOf(bufferOf(cl.Call.Args[1])) != nil && !callOf(bufferOf(cl.Call.Args[1])).Call.IsInvoke() {
+						_, blo, bhi := sliceBounds(body)
+						okW = (blo == "" || blo == "0") && bhi == "16"
+						okCmp = lo0 == "16" && hi0 == "" && (lo1 == "" || lo1 == "0") && hi1 == "16"
+					}
 				}
 			}
 		})
@@ -456,4 +474,58 @@ func (c *Ctx) tonconnectSmallFacts() {
 			c.check(!known, R, "the state-init is parsed where one was supplied", cl.Pos(), "not on the path where it is the empty string", "CheckProof parses the state-init exactly on the path where it has just been found EMPTY (inverted emptiness test): a proof that brings its state-init is refused")
 		}
 	}
+}
+
+// macBody: v is (a slice of) a MAC - the result of Sum on a hash whose one Write in the same function supplies the
+// data, or of an unexported helper that returns such a Sum over one of its parameters. Returns the data MACed.
+func macBody(v ssa.Value, depth int) (ssa.Value, bool) {
+	if depth > 2 {
+		return nil, false
+	}
+	for {
+		sl, ok := v.(*ssa.Slice)
+		if !ok {
+			break
+		}
+		v = sl.X
+	}
+	cl := callOf(v)
+	if cl == nil {
+		return nil, false
+	}
+	if cl.Call.IsInvoke() && cl.Call.Method.Name() == "Sum" {
+		var data ssa.Value
+		n := 0
+		allInstrs(cl.Parent(), func(_ *ssa.BasicBlock, in ssa.Instruction) {
+			if w, ok := in.(*ssa.Call); ok && w.Call.IsInvoke() && w.Call.Method.Name() == "Write" && w.Call.Value == cl.Call.Value {
+				data = w.Call.Args[0]
+				n++
+			}
+		})
+		return data, n == 1
+	}
+	h := plainHelper(cl.Call.StaticCallee())
+	if h == nil {
+		return nil, false
+	}
+	var body ssa.Value
+	for _, r := range returnsOf(h) {
+		b, ok := macBody(retVal(r, 0), depth+1)
+		if !ok {
+			return nil, false
+		}
+		prm, isPrm := stripConv(b).(*ssa.Parameter)
+		if !isPrm {
+			return nil, false
+		}
+		for i, q := range h.Params {
+			if q == prm && i < len(cl.Call.Args) {
+				if body != nil && body != cl.Call.Args[i] {
+					return nil, false
+				}
+				body = cl.Call.Args[i]
+			}
+		}
+	}
+	return body, body != nil
 }
